@@ -198,4 +198,15 @@ CHECKS = {
         "note": "Only scalar/boolean outputs are compared (closest points and directions are not unique on the lattice); MPR depth is excluded (not a function of the geometry when the origin ray passes through an edge). KF-C12 matched by exact state.",
         "technique": "bounded-exhaustive enumeration of states x transformation set; original-vs-transformed relation on the real code (no reference values)",
     },
+    "C20": {
+        "text": ("A corpus of ~9e3 call descriptors drawn from the quick corpora of the other properties (support functions, AABBs, all GJK "
+                 "flavours, boolean tests, EPA, the 34 primitive distance functions on their full alphabets, containment predicates, simplex "
+                 "solvers on lattice multisets, AABB-tree histories incl. empty trees, tetrahedron-pair intersection, hydroelastic body "
+                 "pairs, mesh factories; ~9.5e4 library calls) is executed in three fresh interpreter processes - JIT, NUMBA_DISABLE_JIT=1, "
+                 "JIT + NUMBA_BOUNDSCHECK=1 - and compared call by call (closed forms 1e-9, iterative solvers at their property's "
+                 "tolerance, booleans on certified-margin scenes, exception types); plus the import obligation with the JIT on."),
+        "design_ref": "DESIGN.md 5 C20",
+        "note": "MPR depth is not compared across modes (not a function of the geometry, see C12). Undefined behaviour of compiled out-of-bounds reads is decided by the bounds-checked mode.",
+        "technique": "differential execution of an enumerated call corpus in three execution modes, per-call comparison",
+    },
 }
